@@ -163,13 +163,24 @@ def override_order(repo, col, R):
     r = ex.merged_return() if len(ex.returns) != 1 else ex.returns[0]
     if r is None:
         raise AnalysisError("Module.data_set returns nothing")
-    cats = [x for x in r.walk() if x.op == "binop" and x.name == "+" and any(a_.op == "param" and a_.name == ps for a_ in x.args)]
+    def is_old(a_):
+        """the list as it was handed in: `param_state`, `param_state or []`, `[] if param_state is None else param_state`"""
+        empty = lambda z: z.op in ("list", "tuple") and not z.args
+        if a_.op == "param" and a_.name == ps:
+            return True
+        if a_.op == "bool" and a_.name == "Or" and len(a_.args) == 2:
+            return is_old(a_.args[0]) and empty(a_.args[1])
+        if a_.op == "ifexp" and len(a_.args) == 3:
+            br = a_.args[1:]
+            return any(is_old(b_) for b_ in br) and all(is_old(b_) or empty(b_) for b_ in br)
+        return False
+    cats = [x for x in r.walk() if x.op == "binop" and x.name == "+" and any(is_old(a_) for a_ in x.args)]
     ext = [s_ for s_ in ex.stores if s_.kind == "mcall" and s_.key.name in ("append", "extend", "insert") and s_.base.op == "param" and s_.base.name == ps]
     if not cats and not ext:
         col.unk(R, fi, "a later data_set entry is applied after the earlier ones", f"how the new entry joins `{ps}` was not recognised in {r.short(80)}", node=fi.node)
         return
     for x in cats:
-        first_is_old = x.args[0].op == "param" and x.args[0].name == ps
+        first_is_old = is_old(x.args[0])
         col.check(first_is_old, R, fi, "a later data_set entry is applied after the earlier ones", f"{ps} + [new entry]",
                   f"the new entry is put IN FRONT of the existing ones (`{x.short(70)}`): entries are applied in list order, so for two "
                   f"overlapping data_set calls the earlier value overwrites the later one", node=x.node or fi.node)
